@@ -48,6 +48,7 @@ type stringerVal struct{ s string }
 func (s stringerVal) String() string { return s.s }
 
 type serverWorld struct {
+	tls              bool                          // the listener hands out simulated TLS connections
 	serveYields      int                           // scheduling points before Serve is called
 	cancelOf         map[string]context.CancelFunc // per request prefix (direct callers with ReqSc.Ctx == 2)
 	x                *X
@@ -137,6 +138,9 @@ func (w *serverWorld) handle(ctx context.Context, p *payloads.ActivateRequestPay
 		case a == "pn":
 			var np *payloads.ActivateRequestPayload
 			_ = np.UniqueIdentifier
+		case a == "nn":
+			// a handler that returns neither a payload nor an error
+			return nil, nil
 		case a == "cc":
 			if cancel := w.cancelOf[requestOf(id)]; cancel != nil {
 				w.s.Fault("handler-cancels-request-context")
@@ -268,6 +272,7 @@ func (w *serverWorld) startServer(serverEP func(name string) simnet.EP, acceptLa
 
 func (w *serverWorld) startServerWith(serverEP func(name string) simnet.EP, acceptLatePM int, configure func(*kmipserver.Server)) {
 	w.ln = simnet.NewListener(w.s)
+	w.ln.TLS = w.tls
 	w.ln.ServerEP = serverEP
 	w.ln.AcceptLate = acceptLatePM
 	w.srv = kmipserver.NewServer(w.ln, w.exec)
@@ -315,6 +320,10 @@ type ReqSc struct {
 	// trailing zero bytes | 4 eight-byte big-endian counters (what the library's client sends) | 5 300 bytes, different
 	// in the last one only | 6 a single byte, 0x00 for the first item
 	IDs int `json:"ids,omitempty"`
+	// MaxResp: a small Maximum Response Size in the header (the library ignores the element; a tree that honours it
+	// may fail an item whose result does not fit with reason Response Too Large, and such an item is then a failed
+	// item like any other for the rest of the batch)
+	MaxResp int `json:"max_resp,omitempty"`
 	// Hdr: optional header elements none of which may change what the properties state
 	// bits 0-1 BatchOrderOption (0 absent, 1 true, 2 false) | 4 AsynchronousIndicator=false | 8 MaximumResponseSize
 	// | 16 ClientCorrelationValue | 32 no TimeStamp | 64 Authentication (username/password credential)
@@ -420,6 +429,9 @@ func buildRequest(rs *ReqSc, prefix string) *kmip.RequestMessage {
 	}
 	if rs.Hdr&8 != 0 {
 		req.Header.MaximumResponseSize = 1 << 20
+	}
+	if rs.MaxResp > 0 {
+		req.Header.MaximumResponseSize = int32(rs.MaxResp)
 	}
 	if rs.Hdr&16 != 0 {
 		req.Header.ClientCorrelationValue = "ccv-" + prefix
